@@ -75,6 +75,7 @@ static void submit(item_t *it)
 	 * object with private data (dispatch_block_create), and for barriers also dispatch_async of a BARRIER-flagged
 	 * block object */
 	unsigned form = g_forms ? (unsigned)(vrt_rand() % 10) : 0;
+	if (g_forms && it->kind == K_AFTER) form = (unsigned)(vrt_rand() % 10) < 4 ? 0 : 6 + (unsigned)(vrt_rand() % 4);   /* block objects often */
 	if (form < 6) {
 		switch (it->kind) {
 		case K_ASYNC: dispatch_async_f(g_q, it, item_fn); break;
@@ -237,7 +238,7 @@ static void *client(void *arg)
 				continue;
 			}
 			if (g_susp == 2 && vrt_rand() % 100 < 40) { susp_pair(storm_depth()); continue; }
-			if (vrt_rand() % 100 < 4) { it = new_item(K_AFTER, (int)me, body); if (!it) break; submit(it); continue; }
+			if (vrt_rand() % 100 < 7) { it = new_item(K_AFTER, (int)me, body); if (!it) break; submit(it); continue; }
 			if (g_W == 1) {
 				if (k < 26) it = new_item(K_ASYNC, (int)me, body);
 				else if (k < 34) it = new_item(K_GASYNC, (int)me, body);
